@@ -19,6 +19,20 @@ DISPATCH_NOTE = ('Modelled not verified: werkzeug Request/Response/redirect, Exc
                  '(C05 decides it); what executing a route yields is abstracted to an outcome (Model/Exec supplies it). ')
 
 CLAIMED = {
+ 'C07': dict(
+   text=('Theorems (Props/C07.v): normalize_path AS TRANSLATED from route.py is idempotent, keeps exactly the non-empty '
+         'segments in order and its branch form is canonical (so the redirect target never redirects again); url_quote(path, '
+         "safe='/') round-trips for every byte string (all 256 bytes checked inside Coq, lifted by induction) and emits no "
+         "'?'/'#'; the Location splits at its first '?' into the encoded canonical path (decoding to exactly it) and the "
+         'encoded query; URL-legal query strings pass through unchanged; in the dispatch model a redirect is issued only by a '
+         'branch route in redirect mode that matches and admits the method, for a non-canonical path; the route matches the '
+         'target with the same bindings (C05, partial F3). Tie: translator (normalize_path; a reshaped function fails closed and '
+         'triggers the search) + real applications (flat / route-level mode / embedded with and without slash inheritance), '
+         'every Location compared with the model string and followed by a second raw request.'),
+   note=COMMON_NOTE + DISPATCH_NOTE + 'werkzeug url_quote/redirect/iri_to_uri are modelled (quote_with), not verified; the slash-mode '
+        'inheritance rule is restated in the harness (effective_mode) until C10\'s World model carries it.',
+   technique='Coq proof (string lemmas over the translated normalize_path, byte-exhaustive percent-encoding round trip lifted by induction, case analysis of the dispatch model) + translator + extracted-model differential check with followed redirects',
+   design='6/C07'),
  'C05': dict(
    text=('Theorems (Props/C05.v): the token-level matcher (Model/Match.v) is sound, complete and greedy w.r.t. a declarative '
          'assignment of path segments to pattern elements (literal = equal segment; binding = 1 / 0-1 / 0+ / 1+ segments in '
